@@ -11,7 +11,7 @@ structure MethodC where
   vp : List Nat
   /-- definitions: id and classes of the virtual parameters -/
   specs : List (Nat × List Nat)
-deriving Repr
+deriving Repr, DecidableEq
 
 def resolveIds (proj : Nat → Nat) (hs : List Head) : List Nat → Except Err (List Nat)
   | [] => .ok []
